@@ -53,11 +53,14 @@ pub struct SysCfg {
     /// the emulator's print-messages option (-m): messages are also printed to the console
     #[serde(default)]
     pub print_msgs: bool,
+    /// the emulator's print-instruction option (-i): every executed opcode is printed to the console
+    #[serde(default)]
+    pub print_opcode: bool,
 }
 
 impl SysCfg {
     pub fn plain(step_cap: u64) -> Self {
-        SysCfg { wait_start: false, clock: ClockModel::Fast, clock_seed: 0, step_cap, print_msgs: false }
+        SysCfg { wait_start: false, clock: ClockModel::Fast, clock_seed: 0, step_cap, print_msgs: false, print_opcode: false }
     }
 }
 
@@ -288,7 +291,7 @@ pub fn run_sys<O: Observer + 'static>(
         Ok(())
     });
     let (clock, cstats) = SimClock::new(cfg.clock.clone(), cfg.clock_seed);
-    let outcome = sim.run_opt(cb, Box::new(JumpClock { inner: clock, jump }), cfg.wait_start, cfg.print_msgs);
+    let outcome = sim.run_opt(cb, Box::new(JumpClock { inner: clock, jump }), cfg.wait_start, cfg.print_msgs, cfg.print_opcode);
     let mut shared = match Rc::try_unwrap(shared) {
         Ok(c) => c.into_inner(),
         Err(_) => panic!("harness: callback still alive after run()"),
